@@ -12,6 +12,9 @@ import AxVerif.Driver.Sql
 import AxVerif.Driver.Threads
 import AxVerif.Driver.Tuple
 import AxVerif.Driver.Value
+import AxVerif.Driver.Vacuum
+import AxVerif.Driver.Reopen
+import AxVerif.Driver.Ddl
 import AxVerif.Driver.Wal
 import AxVerif.Driver.Wire
 open AxVerif
@@ -39,6 +42,9 @@ def main (args : List String) : IO UInt32 := do
   | "threads" :: flags => loop stdin stdout (Drivers.threads flags); return 0
   | "tuple" :: flags => loop stdin stdout (Drivers.tuple flags); return 0
   | "value" :: flags => loop stdin stdout (Drivers.value flags); return 0
+  | "vacuum" :: flags => loop stdin stdout (Drivers.vacuum flags); return 0
+  | "reopen" :: flags => loop stdin stdout (Drivers.reopen flags); return 0
+  | "ddl" :: flags => loop stdin stdout (Drivers.ddl flags); return 0
   | "wal" :: flags => loop stdin stdout (Drivers.wal flags); return 0
   | "wire" :: flags => loop stdin stdout (Drivers.wire flags); return 0
   | _ => IO.eprintln "usage: axmodel <engine> [defect flags]"; return 2
